@@ -33,6 +33,8 @@ type c12Cmd struct {
 	// Pauses != nil: the results arrive through a pipe whose writer pauses after these records while
 	// the command runs with -every=1ms (periodic reports are written in between; the last one counts)
 	Pauses []int `json:",omitempty"`
+	// Earlier != "": the command line carries an earlier -buckets flag with this value (the last one counts)
+	Earlier string `json:",omitempty"`
 }
 
 var c12CmdRow = regexp.MustCompile(`^\[(\S+),\s+(\S+)\]\s+(\d+)\s+`)
@@ -93,8 +95,12 @@ func runC12Cmd(c c12Cmd) error {
 		typ, buckets = "hist"+strings.ReplaceAll(spec, " ", ""), spec
 	}
 	out := filepath.Join(dir, "report")
+	var earlier []string
+	if c.Earlier != "" && buckets != "" {
+		earlier = []string{"-buckets=" + c.Earlier}
+	}
 	var rerr error
-	if perr := vh.Try(func() { rerr = report([]string{in}, typ, out, every, buckets) }); perr != nil {
+	if perr := vh.Try(func() { rerr = runReport([]string{in}, typ, out, every, buckets, earlier...) }); perr != nil {
 		return fmt.Errorf("report -type=%q -buckets=%q panics: %v", typ, buckets, perr)
 	}
 	if rerr != nil {
@@ -114,6 +120,9 @@ func runC12Cmd(c c12Cmd) error {
 		want[sort.Search(len(bounds), func(i int) bool { return bounds[i] > l })-1]++
 	}
 	what := fmt.Sprintf("report -type=%q -buckets=%q over %d results", typ, buckets, len(c.Lat))
+	if len(earlier) > 0 {
+		what = fmt.Sprintf("report %s -type=%q -buckets=%q over %d results", earlier[0], typ, buckets, len(c.Lat))
+	}
 	if every > 0 {
 		what = fmt.Sprintf("report -every=%s -type=%q -buckets=%q over %d results arriving through a pipe that pauses after records %v (last report written)", every, typ, buckets, len(c.Lat), c.Pauses)
 	}
@@ -200,6 +209,9 @@ func TestC12ReportCmd(t *testing.T) {
 		c.Spacing = rapid.SliceOfN(rapid.IntRange(0, 2), 1, 3).Draw(t, "spacing")
 		if c.Via == "hist[]" {
 			c.Spacing = []int{0} // the old notation is one shell word in -type
+		}
+		if rapid.IntRange(0, 3).Draw(t, "repeated") == 0 {
+			c.Earlier = rapid.SampledFrom([]string{"[0,5ms]", "[1s]", "[0,1ms,2ms,3ms]", "[7ms,9ms]"}).Draw(t, "earlier")
 		}
 		if rapid.IntRange(0, 5).Draw(t, "periodic") == 0 {
 			c.Pauses = rapid.SliceOfN(rapid.IntRange(0, len(c.Lat)-1), 1, 3).Draw(t, "pauses")
